@@ -2,6 +2,7 @@ package main
 
 import (
 	"go/token"
+	"go/types"
 	"sort"
 	"strings"
 
@@ -84,13 +85,7 @@ func c09R1(h H) {
 			n++
 			r.Check(li[in.Block()], "R1", "casket.executeDirectives/setup-in-inner-loop", in.Pos(), "setup functions run per server block inside the per-directive iteration")
 			// never guarded by justValidate
-			gv := false
-			for _, g := range guardAtoms(fn, nil, in) {
-				if pr, ok := g.Cond.(*ssa.Parameter); ok && pr.Name() == "justValidate" {
-					gv = true
-				}
-			}
-			r.Check(!gv, "R1", "casket.executeDirectives/setup-not-guarded-by-justValidate", in.Pos(), "validation runs exactly the setup calls a real start runs")
+			r.Check(!guardedByJustValidate(fn, in), "R1", "casket.executeDirectives/setup-not-guarded-by-justValidate", in.Pos(), "validation runs exactly the setup calls a real start runs")
 		}
 		// parsing callbacks: dynamic call of a value from the parsingCallbacks global
 		if derives(c.Value, func(v ssa.Value) bool { return isGlobalNamed(v, "parsingCallbacks") }, flowOpts{}) {
@@ -407,4 +402,115 @@ func c09R6(h H, dm *DirMap) {
 		}
 		r.Check(d.Index >= 0, "R6", "directive:"+n+"/listed", d.RegPos, "registered directive has a position in the fixed order")
 	}
+}
+
+// guardedByJustValidate: some condition on the path to in mentions the justValidate parameter
+// (directly, or as an operand of a compound condition; breaks/continues that skip in count too).
+func guardedByJustValidate(fn *ssa.Function, in ssa.Instruction) bool {
+	var mentions func(v ssa.Value) bool
+	seenPhi := map[ssa.Value]bool{}
+	mentions = func(v ssa.Value) bool {
+		if derives(v, func(x ssa.Value) bool {
+			pr, ok := x.(*ssa.Parameter)
+			return ok && pr.Name() == "justValidate"
+		}, flowOpts{}) {
+			return true
+		}
+		// a φ produced by && / ||: the operands that short-circuit are the conditions of the predecessor blocks
+		found := false
+		derives(v, func(x ssa.Value) bool {
+			ph, ok := x.(*ssa.Phi)
+			if !ok || seenPhi[ph] {
+				return false
+			}
+			if b, isB := ph.Type().Underlying().(*types.Basic); !isB || b.Kind() != types.Bool {
+				return false // only boolean φs are short-circuit results
+			}
+			seenPhi[ph] = true
+			for _, pr := range ph.Block().Preds {
+				if g, ok := edgeGuard(pr, ph.Block()); ok && mentions(g.Cond) {
+					found = true
+				}
+			}
+			return false
+		}, flowOpts{})
+		return found
+	}
+	for _, g := range guardAtoms(fn, nil, in) {
+		if mentions(g.Cond) {
+			return true
+		}
+	}
+	// control dependence: blocks reachable through exactly one edge of an If on justValidate.  If such a region can
+	// leave a loop that contains `in`, or return, then justValidate decides whether later setup calls happen — unless
+	// the region is the parsing-callback section, which validation is documented to skip.
+	blocksFrom := func(b *ssa.BasicBlock) map[*ssa.BasicBlock]bool {
+		seen := map[*ssa.BasicBlock]bool{b: true}
+		st := []*ssa.BasicBlock{b}
+		for len(st) > 0 {
+			x := st[len(st)-1]
+			st = st[:len(st)-1]
+			for _, sc := range x.Succs {
+				if !seen[sc] {
+					seen[sc] = true
+					st = append(st, sc)
+				}
+			}
+		}
+		return seen
+	}
+	var loopsOfIn []map[*ssa.BasicBlock]bool
+	for _, hd := range enclosingHeaders(in.Block()) {
+		loopsOfIn = append(loopsOfIn, naturalLoop(hd))
+	}
+	for _, i := range ifs(fn) {
+		seenPhi = map[ssa.Value]bool{}
+		if !mentions(i.Cond) || i.Block().Succs[0] == i.Block().Succs[1] {
+			continue
+		}
+		for idx := 0; idx < 2; idx++ {
+			// exclusive region of edge idx: dominated by the successor when it has the If block as only predecessor
+			sc := i.Block().Succs[idx]
+			if len(sc.Preds) != 1 {
+				continue
+			}
+			other := blocksFrom(i.Block().Succs[1-idx])
+			region := map[*ssa.BasicBlock]bool{}
+			for b := range blocksFrom(sc) {
+				if sc.Dominates(b) && !other[b] || b == sc {
+					region[b] = true
+				}
+			}
+			// allowed: the parsing-callback section
+			isCallbacks := false
+			for b := range region {
+				for _, x := range b.Instrs {
+					if c := callOf(x); c != nil && !c.IsInvoke() && c.StaticCallee() == nil {
+						if derives(c.Value, func(v ssa.Value) bool { return isGlobalNamed(v, "parsingCallbacks") }, flowOpts{}) {
+							isCallbacks = true
+						}
+					}
+				}
+			}
+			if isCallbacks {
+				continue
+			}
+			for b := range region {
+				if _, isRet := lastInstr(b).(*ssa.Return); isRet {
+					return true
+				}
+				for _, s2 := range b.Succs {
+					for _, l := range loopsOfIn {
+						if l[b] && !l[s2] {
+							return true // leaves a loop around the setup call
+						}
+					}
+				}
+				if b == in.Block() {
+					return true
+				}
+			}
+		}
+	}
+	return false
 }
